@@ -153,20 +153,102 @@ func c05Outcome(b []byte, err error, pan string) string {
 	return "ok:" + showBytes(b)
 }
 
+// ---- caller-owned memory ----------------------------------------------------------------------------
+//
+// The property is about each call on its own ("for every key, IV and input"), whatever memory the
+// caller keeps its arguments in. A caller may well keep ONE key buffer, ONE IV buffer, ONE data buffer and
+// ONE pair of big.Int nonces for its whole life and refill them in place before every call; code that
+// keeps a reference to such memory beyond the call (a cache keyed by the slice, a result that aliases an
+// argument) is right for freshly allocated arguments and wrong for this caller. So every byte-string and
+// integer argument of every operation lives in a long-lived slot (c05Slots / c05Ints), and every
+// operation is run twice on them: first with other contents of the same lengths (the complement of each
+// argument — "the previous call"), then, refilled in place, with the operation's own arguments; only the
+// second result is reported. After the call has returned the arguments are overwritten once more and the
+// result must not move.
+
+var c05Slots [5][]byte
+var c05Ints [2]*big.Int
+
+// c05Place copies content (complemented for the decoy pass) into slot i and returns the slot's slice.
+func c05Place(i int, content []byte, decoy bool) []byte {
+	if cap(c05Slots[i]) < len(content) {
+		c05Slots[i] = make([]byte, len(content), 2*len(content)+64)
+	}
+	b := c05Slots[i][:len(content)]
+	copy(b, content)
+	if decoy {
+		c05Scribble(b)
+	}
+	return b
+}
+
+// c05PlaceInt sets the long-lived big.Int i to the value of the token (its words are rewritten in place
+// when they fit; SetBytes keeps the backing array).
+func c05PlaceInt(i int, tok string, decoy bool) *big.Int {
+	if c05Ints[i] == nil {
+		c05Ints[i] = new(big.Int)
+	}
+	b := append([]byte{}, parseBytes(tok)...)
+	if decoy {
+		c05Scribble(b)
+	}
+	return c05Ints[i].SetBytes(b)
+}
+
+func c05Scribble(bufs ...[]byte) {
+	for _, b := range bufs {
+		for j := range b {
+			b[j] = ^b[j]
+		}
+	}
+}
+
+// c05Retained: the arguments are overwritten after the call; a result that changes with them is a
+// reference into the caller's memory.
+func c05Retained(results [][]byte, args [][]byte, ints ...*big.Int) bool {
+	snap := make([][]byte, len(results))
+	for i, r := range results {
+		snap[i] = append([]byte{}, r...)
+	}
+	c05Scribble(args...)
+	for _, n := range ints {
+		n.SetBytes(bytes.Repeat([]byte{0x3c}, 40))
+	}
+	for i, r := range results {
+		if !bytes.Equal(snap[i], r) {
+			return true
+		}
+	}
+	return false
+}
+
 func c05Exec(op []string) string {
+	func() {
+		defer func() { _ = recover() }()
+		_ = c05Exec1(op, true)
+	}()
+	return c05Exec1(op, false)
+}
+
+func c05Exec1(op []string, decoy bool) string {
+	arg := func(slot, i int) []byte { return c05Place(slot, parseBytes(op[i]), decoy) }
 	switch op[0] {
 	case "c05.enc", "c05.dec":
-		key, iv, data := parseBytes(op[1]), parseBytes(op[2]), parseBytes(op[3])
-		out := c05Fill(len(data))
+		key, iv, data := arg(0, 1), arg(1, 2), arg(2, 3)
+		out := c05Place(3, c05Fill(len(data)), false)
 		var err error
 		if op[0] == "c05.enc" {
 			err = ige.VerifIGEEncrypt(data, out, key, iv)
 		} else {
 			err = ige.VerifIGEDecrypt(data, out, key, iv)
 		}
-		return fmt.Sprintf("err=%s out=%s in=%s", c05Err(err), showBytes(out), showBytes(data))
+		line := fmt.Sprintf("err=%s out=%s in=%s", c05Err(err), showBytes(out), showBytes(data))
+		if c05Retained([][]byte{out}, [][]byte{key, iv, data}) {
+			return "caller-buffer-retained"
+		}
+		return line
 	case "c05.msgenc":
-		ak, msg := parseBytes(op[1]), parseBytes(op[2])
+		ak, msg := arg(0, 1), arg(1, 2)
 		ak0, msg0 := append([]byte{}, ak...), append([]byte{}, msg...)
 		var err error
 		res, pan := c05Catch(func() []byte {
@@ -177,9 +259,12 @@ func c05Exec(op []string) string {
 		if !bytes.Equal(ak, ak0) || !bytes.Equal(msg, msg0) {
 			return "caller-buffer-changed"
 		}
+		if c05Retained([][]byte{res}, [][]byte{ak, msg}) {
+			return "caller-buffer-retained"
+		}
 		return c05Outcome(res, err, pan)
 	case "c05.msgdec":
-		ak, mk, ct := parseBytes(op[1]), parseBytes(op[2]), parseBytes(op[3])
+		ak, mk, ct := arg(0, 1), arg(1, 2), arg(2, 3)
 		ak0, mk0, ct0 := append([]byte{}, ak...), append([]byte{}, mk...), append([]byte{}, ct...)
 		var err error
 		res, pan := c05Catch(func() []byte {
@@ -190,19 +275,25 @@ func c05Exec(op []string) string {
 		if !bytes.Equal(ak, ak0) || !bytes.Equal(mk, mk0) || !bytes.Equal(ct, ct0) {
 			return "caller-buffer-changed"
 		}
+		if c05Retained([][]byte{res}, [][]byte{ak, mk, ct}) {
+			return "caller-buffer-retained"
+		}
 		return c05Outcome(res, err, pan)
 	case "c05.tkeys":
-		n, s := c05Big(op[1]), c05Big(op[2])
+		n, s := c05PlaceInt(0, op[1], decoy), c05PlaceInt(1, op[2], decoy)
 		var key, iv []byte
 		_, pan := c05Catch(func() []byte { key, iv = ige.VerifGenerateTempKeys(n, s); return nil })
 		if pan != "" {
 			return pan
 		}
+		if c05Retained([][]byte{key, iv}, nil, n, s) {
+			return "caller-buffer-retained"
+		}
 		return fmt.Sprintf("key=%s iv=%s", showBytes(key), showBytes(iv))
 	case "c05.tenc":
-		n, s := c05Big(op[1]), c05Big(op[2])
+		n, s := c05PlaceInt(0, op[1], decoy), c05PlaceInt(1, op[2], decoy)
 		seed, _ := strconv.ParseInt(op[3], 10, 64)
-		msg := parseBytes(op[5])
+		msg := arg(0, 5)
 		msg0 := append([]byte{}, msg...)
 		rand.Seed(seed) // the padding comes from dry.RandomBytes = global math/rand
 		ct, pan := c05Catch(func() []byte { return ige.EncryptMessageWithTempKeys(msg, n, s) })
@@ -212,37 +303,58 @@ func c05Exec(op []string) string {
 		if !bytes.Equal(msg, msg0) {
 			return "caller-buffer-changed"
 		}
+		if c05Retained([][]byte{ct}, [][]byte{msg}) {
+			return "caller-buffer-retained"
+		}
+		// the ciphertext travels: what is decrypted is a copy of it in the caller's (reused) receive buffer
+		ctFull := hexD(ct) // in full: the oracle decrypts it
+		ct = c05Place(1, ct, false)
 		ct0 := append([]byte{}, ct...)
 		rt, pan := c05Catch(func() []byte { return ige.DecryptMessageWithTempKeys(ct, n, s) })
 		if !bytes.Equal(ct, ct0) {
 			return "caller-buffer-changed"
 		}
-		return fmt.Sprintf("ct=%s rt=%s", hexD(ct), c05Outcome(rt, nil, pan)) // ct in full: the oracle decrypts it
+		if c05Retained([][]byte{rt}, [][]byte{ct}, n, s) {
+			return "caller-buffer-retained"
+		}
+		return fmt.Sprintf("ct=%s rt=%s", ctFull, c05Outcome(rt, nil, pan))
 	case "c05.tnopad":
-		n, s, data := c05Big(op[1]), c05Big(op[2]), parseBytes(op[3])
+		n, s, data := c05PlaceInt(0, op[1], decoy), c05PlaceInt(1, op[2], decoy), arg(0, 3)
 		data0 := append([]byte{}, data...)
 		ct, pan := c05Catch(func() []byte { return ige.VerifEncryptWithTempKeysNoPad(data, n, s) })
 		if !bytes.Equal(data, data0) {
 			return "caller-buffer-changed"
 		}
+		if c05Retained([][]byte{ct}, [][]byte{data}, n, s) {
+			return "caller-buffer-retained"
+		}
 		return c05Outcome(ct, nil, pan)
 	case "c05.tdec":
-		nb, sb, pad, answer := parseBytes(op[1]), parseBytes(op[2]), parseBytes(op[3]), parseBytes(op[4])
+		nb, sb, pad, answer := arg(0, 1), arg(1, 2), arg(2, 3), arg(3, 4)
 		if len(nb) != 32 || len(sb) != 16 || (20+len(answer)+len(pad))%16 != 0 {
 			return "bad-op"
 		}
-		ct := c05Conformant(nb, sb, answer, pad)
+		ct := c05Place(4, c05Conformant(nb, sb, answer, pad), false)
 		ct0 := append([]byte{}, ct...)
-		res, pan := c05Catch(func() []byte {
-			return ige.DecryptMessageWithTempKeys(ct, new(big.Int).SetBytes(nb), new(big.Int).SetBytes(sb))
-		})
+		ctShown := showBytes(ct)
+		if c05Ints[0] == nil || c05Ints[1] == nil {
+			c05Ints[0], c05Ints[1] = new(big.Int), new(big.Int)
+		}
+		n, s := c05Ints[0].SetBytes(nb), c05Ints[1].SetBytes(sb)
+		res, pan := c05Catch(func() []byte { return ige.DecryptMessageWithTempKeys(ct, n, s) })
 		if !bytes.Equal(ct, ct0) {
 			return "caller-buffer-changed"
 		}
-		return fmt.Sprintf("ct=%s out=%s", showBytes(ct), c05Outcome(res, nil, pan))
+		if c05Retained([][]byte{res}, [][]byte{ct, nb, sb}, n, s) {
+			return "caller-buffer-retained"
+		}
+		return fmt.Sprintf("ct=%s out=%s", ctShown, c05Outcome(res, nil, pan))
 	case "c05.tdecraw":
-		n, s, ct := c05Big(op[1]), c05Big(op[2]), parseBytes(op[3])
+		n, s, ct := c05PlaceInt(0, op[1], decoy), c05PlaceInt(1, op[2], decoy), arg(0, 3)
 		res, pan := c05Catch(func() []byte { return ige.DecryptMessageWithTempKeys(ct, n, s) })
+		if c05Retained([][]byte{res}, [][]byte{ct}, n, s) {
+			return "caller-buffer-retained"
+		}
 		return c05Outcome(res, nil, pan)
 	}
 	return "bad-op"
@@ -267,8 +379,19 @@ func field(out, name string) string {
 }
 
 func c05Judge(op []string, out string) string {
+	why := c05Judge1(op, out)
+	if why != "" {
+		why += " [every argument lives in a long-lived caller buffer that held other contents (the complement) during the call before, see c05Exec]"
+	}
+	return why
+}
+
+func c05Judge1(op []string, out string) string {
 	if out == "caller-buffer-changed" {
 		return "a caller's buffer was modified by the call"
+	}
+	if out == "caller-buffer-retained" {
+		return "the result changed when the caller overwrote its own argument buffers after the call had returned: the code hands out / keeps a reference into caller-owned memory"
 	}
 	switch op[0] {
 	case "c05.enc", "c05.dec":
